@@ -3,4 +3,4 @@ package main
 
 import "verif/harness/internal/tygen/encrun"
 
-func main() { encrun.Main("std", false, true, true) }
+func main() { encrun.Main("std", false, true, true, 0) }
